@@ -25,6 +25,7 @@ type Clause struct {
 	Text string
 	Src  string
 	Auto bool
+	Inherited bool // copied from a default contract: not applicable to every signature
 	Tag  string // property group that checks this clause (empty: the structural group)
 }
 
@@ -324,6 +325,26 @@ func (e *Engine) loadContractFile(path string) error {
 				cur.Ensures = append(cur.Ensures, c)
 			case "decreases":
 				cur.Decreases = &c
+			}
+		case "inherit":
+			// copy the clauses of the default contract that would otherwise apply to this function
+			if cur == nil || cur.Default {
+				return fmt.Errorf("inherit outside an explicit func contract: %s", l)
+			}
+			found := false
+			for _, d := range e.Defaults {
+				if strings.HasPrefix(cur.Key, strings.TrimSuffix(d.Key, "*")) {
+					cur.Requires = append(cur.Requires, d.Requires...)
+					for _, en := range d.Ensures {
+						en.Inherited = true
+						cur.Ensures = append(cur.Ensures, en)
+					}
+					found = true
+					break
+				}
+			}
+			if !found {
+				return fmt.Errorf("inherit: no default contract matches %s", cur.Key)
 			}
 		case "trusted":
 			if cur == nil {
@@ -855,6 +876,16 @@ func (env *SpecEnv) lookupLocal(name string) (SV, bool) {
 	fr := env.fr
 	if fr.fn != env.fn {
 		return SV{}, false
+	}
+	// captured variable of a closure: the free variable is a pointer to the variable's cell
+	for _, fv := range fr.fn.FreeVars {
+		if fv.Name() == name {
+			if pv, ok := fr.vals[fv]; ok {
+				if pt, ok := underlying(fv.Type()).(*types.Pointer); ok {
+					return SV{T: pt.Elem(), V: fr.load(env.st, pv.C[0], pt.Elem())}, true
+				}
+			}
+		}
 	}
 	// address-taken local: load from its cell
 	if vs := fr.names["&"+name]; len(vs) == 1 {
